@@ -87,7 +87,7 @@ import (
 // C14-iface-pkgpath: the descriptor of interface{ M() } carries the path of the emitting package
 type AP = *pa.T
 
-var k1 any = AP(nil)
+var k1 any = (*AP)(nil) // **pa.T whose element descriptor *pa.T is built from the alias
 var k2 interface{ M() } = pa.Q{}
 
 func main() {
